@@ -83,6 +83,14 @@ fn real_main() -> i32 {
             let (n, biggest, text) = tables::bomb(mib);
             println!("BOMB reply_bytes={} largest_allocation_request={} result={}", n, biggest, text);
         }
+        Some("bigframe") => {
+            // kharness bigframe <n>...: replies of n bytes read by the real client, each followed by another call
+            for a in &args[2..] {
+                let n: usize = a.parse().unwrap();
+                let (first, second) = tables::bigframe(n);
+                println!("BIGFRAME n={} first={} | second={}", n, first, second);
+            }
+        }
         Some("errtable") => {
             print!("{}", tables::error_table_lean());
         }
